@@ -337,6 +337,12 @@ class SymInt:
     def __format__(self, spec):
         return "<sym>"
 
+    def __divmod__(self, o):
+        return (self // o, self % o)
+
+    def __rdivmod__(self, o):
+        return (o // self, o % self)
+
     def bit_length(self):
         """symbolic: an If-chain over the magnitude (no fork, no enumeration)"""
         v = abs(self)
